@@ -11,6 +11,20 @@ MOD_HEAD = ('use super::*;\nuse crate::std;\nuse crate::filetime;\nuse crate::li
             'use crate::filetime::FileTime;\nuse crate::std::io::Error;\nuse crate::std::io::ErrorKind;\nuse crate::std::io::Result;\n')
 
 
+# T1 table: every function that takes the ghost World (POSIX/std/filetime stand-ins and the crate's own
+# functions under contract).  A call to any of them, wherever it appears in a function under contract,
+# gains `Tracked(w)`; a new call site introduced by a change is therefore threaded, not a lost anchor.
+WORLD_CALLEES = [
+    'std :: fs :: remove_file', 'std :: fs :: symlink_metadata', 'std :: fs :: metadata', 'std :: fs :: set_permissions',
+    'std :: fs :: rename', 'std :: fs :: hard_link', 'std :: fs :: create_dir_all', 'std :: fs :: read_dir', 'std :: fs :: File :: open',
+    'File :: open', '. metadata', 'filetime :: set_file_times', 'filetime :: set_file_atime', 'filetime :: set_file_handle_times',
+    'FileTime :: now', 'std :: time :: SystemTime :: now', 'SystemTime :: now',
+    'move_to_back_of_list', 'set_read_only', 'ensure_file_removed', 'ensure_file_touched', 'raw_cache :: ensure_file_touched',
+    'collect_cached_files', 'apply_update', 'raw_cache :: prune', 'prune', 'ensure_directory', 'cleanup_temporary_directory',
+    '. ensure_temp_dir', '. cleanup_temp_directory', '. definitely_cleanup', '. maybe_cleanup', '. maintain', '. event', '. weighted_event',
+]
+
+
 def _unit(name):
     p = os.path.join(os.path.dirname(os.path.abspath(__file__)), name + '.py')
     spec = importlib.util.spec_from_file_location(name, p)
@@ -161,7 +175,6 @@ pub proof fn lemma_stamped_unread(ino: Inode, t: int, gran: int)
     f.insert_before_tok(f.fn_kw(), 'pub ')   # visibility only: the nested fn lives in a module of its own here
     f.add_param(W)
     f.add_arg('FileTime :: now', TW)
-    f.add_arg('filetime :: set_file_atime', TW)
     f.contract(
         requires=[('', 'old(w).inv()')],
         ensures=[
@@ -171,15 +184,13 @@ pub proof fn lemma_stamped_unread(ino: Inode, t: int, gran: int)
              'old(w).solo ==> (r == Ok::<bool, Error>(true) ==> old(w).files.contains_key(pv(path)) && final(w).hard_faults == old(w).hard_faults '
              '&& final(w).only_inode_changed(*old(w), old(w).files[pv(path)], Inode { atime: trunc(final(w).now, old(w).gran), ..old(w).inode_at(pv(path)) }) '
              '&& final(w).accessed(pv(path)))'),
-            ('C05 C04:absence-is-reported-as-false',
+            ('C05 C04 C18:absence-is-reported-as-false',
              'old(w).solo ==> (r == Ok::<bool, Error>(false) ==> !old(w).files.contains_key(pv(path)) && final(w).same_fs(*old(w)) && final(w).hard_faults == old(w).hard_faults)'),
             ('C15 C05:anything-but-a-hit-changes-nothing', '!(r == Ok::<bool, Error>(true)) ==> final(w).same_fs(*old(w))'),
             ('C04 C05:touch-reports-presence-truthfully',
              'old(w).solo && r.is_ok() && !old(w).dirs.contains(pv(path)) ==> r.unwrap() == old(w).files.contains_key(pv(path))'),
             ERR_UNCHANGED,
         ])
-    f.insert_before('match filetime :: set_file_atime',
-                    'proof { lemma_trunc_monotone(0, 0, 1); }\n        ')
     u.text('}\n')
 
     # ---- ensure_file_touched ----------------------------------------------------------------
@@ -1136,10 +1147,7 @@ pub open spec fn write_frame(old: World, fin: World, base: PathV, name: Seq<u8>,
     cl = u.under_contract(u.item('src/cache_dir.rs', ['fn cleanup_temporary_directory']), ['C02', 'C17', 'C05', 'C06', 'C18', 'C15'])
     cl.air = r'cache_dir::cleanup_temporary_directory(::handle)?'
     cl.add_param(W)
-    cl.add_arg('std :: time :: SystemTime :: now', TW)
-    cl.add_arg('std :: fs :: read_dir', TW)
-    cl.add_arg('dirent . metadata', TW)
-    cl.add_arg('std :: fs :: remove_file', TW)
+    cl.thread(WORLD_CALLEES)
     HANDLE_CONTRACT = (
         '\n            requires\n                old(w).inv(),\n                dirent.dir() == pbv(*old(temp)),\n'
         '                is_temp_dir_of(*old(w), dirent.dir()),\n                single_component(dirent.name()),\n'
@@ -1150,17 +1158,28 @@ pub open spec fn write_frame(old: World, fin: World, base: PathV, name: Seq<u8>,
         '                final(w).files == old(w).files || (final(w).files == old(w).files.remove(child(dirent.dir(), dirent.name())) '
         '&& old(w).files.contains_key(child(dirent.dir(), dirent.name())) '
         '&& old(w).inode_at(child(dirent.dir(), dirent.name())).mtime < threshold.ns()),   // @L C17 C02:only-stale-temporary-files-are-removed\n')
-    cl.replace('let mut handle = | | -> Result < ( ) >',
-               'fn handle(dirent: &DirEntry, temp: &mut PathBuf, threshold: std::time::SystemTime, %s) -> (r: Result<()>)%s' % (W, HANDLE_CONTRACT),
-               'T4-closure-lift')
-    cl.replace('handle ( )', 'handle(&dirent, &mut temp, threshold, Tracked(w))', 'T4-closure-call')
-    cl.insert_before('let _ = handle', 'let ghost wb = *w;\n        ')
-    cl.insert_after('let _ = handle ( ) ;', '\n        proof { lemma_temp_frame_step(*old(w), wb, *w, tdir, reading, dirent.name()); }')
-    cl.insert_after('let metadata = dirent . metadata ( ) ? ;', '\n            broadcast use group_asref;\n            proof { lemma_child(dirent.dir(), dirent.name()); }')
+    closure_shape = cl._find('let mut handle = | | -> Result < ( ) >', count=True) == 1 and cl._find('let _ = handle ( ) ;', count=True) == 1
+    if closure_shape:
+        cl.replace('let mut handle = | | -> Result < ( ) >',
+                   'fn handle(dirent: &DirEntry, temp: &mut PathBuf, threshold: std::time::SystemTime, %s) -> (r: Result<()>)%s' % (W, HANDLE_CONTRACT),
+                   'T4-closure-lift')
+        cl.replace('handle ( )', 'handle(&dirent, &mut temp, threshold, Tracked(w))', 'T4-closure-call')
+        cl.insert_before('let _ = handle', 'let ghost wb = *w;\n        ')
+        cl.insert_after('let _ = handle ( ) ;', '\n        proof { lemma_temp_frame_step(*old(w), wb, *w, tdir, reading, dirent.name()); }')
+        cl.insert_after('let metadata = dirent . metadata ( ) ? ;', '\n            broadcast use group_asref;\n            proof { lemma_child(dirent.dir(), dirent.name()); }')
+        after_next = ''
+    else:
+        # the per-entry closure is gone: the loop body is woven as it stands; one generic hint at the top of the body says
+        # that unlinking a stale child of the temp directory (or doing nothing) keeps the frame
+        after_next = ('broadcast use group_asref; let ghost wb0 = *w; proof { lemma_child(tdir, dirent.name()); '
+                      'assert forall|a: World, b: World| a.same_fs(wb0) && a.kept(wb0) && #[trigger] b.stepped(a) && (b.same_fs(a) || (b.files == a.files.remove(child(tdir, dirent.name())) '
+                      '&& b.dirs == a.dirs && b.inodes == a.inodes && a.files.contains_key(child(tdir, dirent.name())))) '
+                      '&& (!b.same_fs(a) ==> wb0.inode_at(child(tdir, dirent.name())).mtime + temp_age_ns() < reading) implies temp_frame(*old(w), b, tdir, reading) by { '
+                      'lemma_temp_frame_step(*old(w), wb0, b, tdir, reading, dirent.name()); } } ')
     cl.desugar_for(0, next_args=TW,
-                   after_init='let ghost tdir = pbv(temp); let ghost reading = w.now;')
+                   after_init='let ghost tdir = pbv(temp); let ghost reading = w.now;', after_next=after_next)
     cl.loop_contract(0, invariant=[
-        ('', 'old(w).inv() && w.inv() && w.kept(*old(w)) && kw_it.dir() == tdir && pbv(temp) == tdir && is_temp_dir_of(*w, tdir) && w.now == reading'),
+        ('', 'old(w).inv() && w.inv() && w.kept(*old(w)) && kw_it.dir() == tdir && pbv(temp) == tdir && tdir == cowv(temp_dir) && is_temp_dir_of(*w, tdir) && w.now == reading'),
         ('', 'threshold.ns() == reading - temp_age_ns()'),
         ('C17 C02:only-stale-temporary-files-are-removed', 'temp_frame(*old(w), *w, tdir, reading)'),
         ('C06:three-calls-per-directory-item', 'w.steps <= old(w).steps + 2 + 3 * (w.listed - old(w).listed) && w.opens == old(w).opens + 1 && w.published == old(w).published'),
@@ -1217,9 +1236,9 @@ pub open spec fn write_frame(old: World, fin: World, base: PathV, name: Seq<u8>,
              '&& !r.unwrap().unwrap().can_write()' % (TARGET, TARGET)),
             ('C09:hit-marks-the-entry-as-read-whatever-the-atime-policy',
              'r.is_ok() && r.unwrap().is_some() && final(w).hard_faults == old(w).hard_faults ==> final(w).accessed(%s)' % TARGET),
-            ('C05 C04 C11:miss-means-absent',
+            ('C05 C04 C11 C18:miss-means-absent',
              'r.is_ok() && r.unwrap().is_none() ==> !old(w).files.contains_key(%s) && final(w).same_fs(*old(w))' % TARGET),
-            ('C04 C11:present-entry-is-found',
+            ('C04 C11 C18:present-entry-is-found',
              'r.is_ok() && old(w).files.contains_key(%s) ==> r.unwrap().is_some()' % TARGET),
             ('C18 C05:error-is-an-invalid-name-or-a-real-fault',
              'r.is_err() ==> !first_byte_ok(str_bytes(name)) || str_bytes(name).contains(0x2fu8) || final(w).hard_faults > old(w).hard_faults'),
@@ -1244,7 +1263,7 @@ pub open spec fn write_frame(old: World, fin: World, base: PathV, name: Seq<u8>,
              'r == Ok::<bool, Error>(true) ==> old(w).files.contains_key(%s) && final(w).accessed(%s) '
              '&& final(w).only_inode_changed(*old(w), old(w).files[%s], Inode { atime: final(w).inode_at(%s).atime, ..old(w).inode_at(%s) })'
              % (TARGET, TARGET, TARGET, TARGET, TARGET)),
-            ('C05 C04:absence-is-reported-as-false', 'r == Ok::<bool, Error>(false) ==> !old(w).files.contains_key(%s) && final(w).same_fs(*old(w))' % TARGET),
+            ('C05 C04 C18:absence-is-reported-as-false', 'r == Ok::<bool, Error>(false) ==> !old(w).files.contains_key(%s) && final(w).same_fs(*old(w))' % TARGET),
             ('C15 C09:touch-changes-nothing-but-the-access-time-of-the-entry-found',
              'final(w).files == old(w).files && final(w).dirs == old(w).dirs && forall|i: InodeId| old(w).inodes.contains_key(i) ==> '
              '#[trigger] final(w).inodes[i] == (Inode { atime: final(w).inodes[i].atime, ..old(w).inodes[i] }) '
@@ -1461,6 +1480,12 @@ impl Cache {
     return im
 
 
+def thread_all(u):
+    for v in u.fns:
+        if any(ch.text.strip().endswith('Tracked(w): Tracked<&mut World>') for ch in v.chunks if v.ct[v.lo][2] <= ch.pos <= v.ct[v.hi][3]):
+            v.thread(WORLD_CALLEES)
+
+
 def build(u):
     u.prelude('world.rs')
     u.prelude('vfs.rs')
@@ -1474,4 +1499,5 @@ def build(u):
     weave_maintenance(u)
     weave_cache_dir_head(u)
     weave_plain(u)
+    thread_all(u)
     return u
